@@ -271,6 +271,10 @@ class Engine:
                     path = path + (("f", pr["f"]),)
                 elif "downcast" in pr:
                     path = path + (("v", pr["vname"]),)
+                elif "index" in pr:
+                    path = path + (("idx", pr["index"]),)
+                elif "cidx" in pr and not pr.get("from_end"):
+                    path = path + (("cidx", pr["cidx"]),)
                 else:
                     return None
             else:
@@ -305,6 +309,14 @@ class Engine:
     def read(self, env, l, path):
         av = env.get(l, TOP)
         for st in path:
+            if st[0] in ("idx", "cidx"):
+                # element of a constant byte string at a known index
+                i = env.get(st[1], TOP) if st[0] == "idx" else ("i", st[1])
+                if av[0] == "bytes" and i[0] == "i" and 0 <= i[1] < len(av[1]):
+                    av = ("byte", 1 << av[1][i[1]])
+                else:
+                    av = TOP
+                continue
             av = self.step(av, st)
         if av[0] == "variant":
             return TOP
@@ -543,6 +555,15 @@ class Engine:
             a = self.operand(env, rv["a"])
             if rv["op"] == "Not" and a[0] == "b":
                 return ("b", (None if a[1] is None else (not a[1])), a[3], a[2])
+            if rv["op"] == "PtrMetadata":
+                x = a
+                for _ in range(3):
+                    if x[0] == "cell":
+                        x = x[1]
+                    elif x[0] == "ref":
+                        x = self.read(env, x[1], x[2])
+                if x[0] == "bytes":
+                    return ("i", len(x[1]))
             return TOP
         if k == "discr":
             r = self.resolve(env, rv["p"])
@@ -1277,6 +1298,44 @@ def _pure_top(eng, fn, bb, t, env, state, args, where):
     return [(TOP, env, state)]
 
 
+def _u8_class(mask):
+    def h(eng, fn, bb, t, env, state, args, where):
+        pl = _arg_place(eng, env, t, 0)
+        a = args[0]
+        cur = None
+        if pl is not None:
+            cur = eng.read(env, pl[0], pl[1])
+        elif a[0] == "cell":
+            cur = a[1]
+        elif a[0] == "byte":
+            cur = a
+        if cur is None or cur[0] not in ("byte", "top"):
+            return [(("b", None, (), ()), env, state)]
+        m = cur[1] if cur[0] == "byte" else ALL
+        yes, no = m & mask, m & ~mask
+        if pl is None:
+            val = True if not no else False if not yes else None
+            return [(("b", val, (), ()), env, state)]
+        if not yes:
+            return [(("b", False, (), (("set", pl[0], pl[1], ("byte", no)),)), env, state)]
+        if not no:
+            return [(("b", True, (("set", pl[0], pl[1], ("byte", yes)),), ()), env, state)]
+        return [(("b", None, (("set", pl[0], pl[1], ("byte", yes)),), (("set", pl[0], pl[1], ("byte", no)),)), env, state)]
+
+    return h
+
+
+U8_CLASSES = {
+    "is_ascii_digit": mask_of(range(48, 58)),
+    "is_ascii_hexdigit": mask_of(list(range(48, 58)) + list(range(65, 71)) + list(range(97, 103))),
+    "is_ascii_lowercase": mask_of(range(97, 123)),
+    "is_ascii_uppercase": mask_of(range(65, 91)),
+    "is_ascii_alphabetic": mask_of(list(range(65, 91)) + list(range(97, 123))),
+    "is_ascii_alphanumeric": mask_of(list(range(48, 58)) + list(range(65, 91)) + list(range(97, 123))),
+    "is_ascii_whitespace": mask_of([9, 10, 12, 13, 32]),
+    "is_ascii": mask_of(range(0, 128)),
+}
+
 MODELS = {
     "core::option::Option::is_none": _is_variant(OPTION, ["None"], ["Some"]),
     "core::option::Option::is_some": _is_variant(OPTION, ["Some"], ["None"]),
@@ -1296,3 +1355,7 @@ MODELS = {
     "core::option::Option::take": _option_take,
     "core::hint::must_use": _identity,
 }
+
+for _n, _m in U8_CLASSES.items():
+    MODELS["core::num::" + _n] = _u8_class(_m)
+    MODELS["core::num::<impl u8>::" + _n] = _u8_class(_m)
